@@ -64,6 +64,16 @@ func (e *VerifEnv) AddTapeEntry(name string, typeflag byte, size int64) *models.
 	return row
 }
 
+// AddTapeTombstone appends the CREATE and the DELETE record of an entry that was removed again, without
+// touching the index, and returns the tombstone row indexing them would leave.
+func (e *VerifEnv) AddTapeTombstone(name string, typeflag byte) *models.Header {
+	save := e.P
+	e.P = nil
+	row := e.addEntry(name, typeflag, 0, true, "", false)
+	e.P = save
+	return row
+}
+
 // AddEntry puts a consistent (tape member, index row) pair into the pre-state: the member is appended
 // to the ghost tape as its own archive and the row points at it (this is what C04 establishes).
 func (e *VerifEnv) AddEntry(name string, typeflag byte, size int64, deleted bool, linkname string) *models.Header {
